@@ -21,6 +21,7 @@ OVERLAY = {
     HS + "/zz_c19_dflt_verif_test.go": "harness/overlay/httpauth/c19_dflt_verif_test.go",
     HS + "/zz_c19_swap_verif_test.go": "harness/overlay/httpauth/c19_swap_verif_test.go",
     HS + "/zz_c19_cache_verif_test.go": "harness/overlay/httpauth/c19_cache_verif_test.go",
+    HS + "/zz_c19_hosts_verif_test.go": "harness/overlay/httpauth/c19_hosts_verif_test.go",
     HS + "/zz_c19_e2e_verif_test.go": "harness/overlay/httpauth/c19_e2e_verif_test.go",
     HS + "/zz_c19_hook_verif.go": "harness/overlay/httpauth/c19_hook_verif.go",
 }
@@ -66,7 +67,8 @@ def warm(ctx):
         ctx.obligations.append(("harness:compile", False, out[-1500:]))
 
 
-KIND = {1: "genDataToSign", 2: "header parser", 3: "request at a server", 4: "client handshake", 5: "AuthenticatedDo against a scripted server", 7: "history of AuthenticatedDo calls (token cache)"}
+KIND = {1: "genDataToSign", 2: "header parser", 3: "request at a server", 4: "client handshake", 5: "AuthenticatedDo against a scripted server", 7: "history of AuthenticatedDo calls (token cache)",
+        8: "history of AuthenticatedDo calls of one client across hostnames and servers (token map)"}
 
 
 def describe(t):
@@ -84,6 +86,24 @@ def describe(t):
             d["header"] = bytes(x & 255 for x in t[2:2 + t[1]]).decode("latin1")[:600]
         elif t[0] == 4:
             d.update({"client_key": t[1], "hostname_atom": t[2], "steps": t[3]})
+        elif t[0] == 8:
+            d.update({"client_key": t[1], "atom_of_the_empty_host": t[2], "calls": t[3]})
+            p, calls = 4, []
+            for _ in range(t[3]):
+                rh, uh, nf = t[p], t[p + 1], t[p + 2]
+                p += 3 + nf
+                nr = t[p]; p += 1
+                sts = []
+                for _ in range(nr):
+                    sts.append(t[p])
+                    p = skip_bytes(t, skip_bytes(t, skip_table(t, p + 1)))
+                pid, nq = t[p], t[p + 1]
+                p += 2
+                for _ in range(nq):
+                    p = skip_ohdr(t, p)
+                calls.append({"req_host_atom": "(no Host)" if rh == t[2] else rh, "url_host_atom": uh,
+                              "response_statuses": sts, "requests_sent": nq, "returned_id": pid})
+            d["history"] = calls
     except Exception as e:  # description only
         d["describe_error"] = str(e)
     d["raw_prefix"] = t[:40]
@@ -143,7 +163,7 @@ def reported_id(t):
                 return True
             p = skip_ohdr(t, p + 5)
         return False
-    if t[0] == 7:
+    if t[0] in (7, 8):
         return True
     if t[0] == 5:
         p = 4 + t[3]
@@ -176,6 +196,12 @@ def what(tag, toks, d):
     if toks[0] == 7:
         return "history of AuthenticatedDo calls: call %s returned server id %s that the handshake behind the token in use / this call does not prove (diag %s)" % (
             d[2] if len(d) > 2 else "?", d[3] if len(d) > 3 else "?", d)
+    if toks[0] == 8 and len(d) > 1 and d[1] == 9:
+        return "one ClientPeerIDAuth against several servers: call %s only presented a stored token and returned server id %s, but no handshake bound to a hostname this request names (its Host, or for a request without Host the empty name / its URL's host) proved that id: the token was obtained for another hostname (diag %s)" % (
+            d[2] if len(d) > 2 else "?", d[3] if len(d) > 3 else "?", d)
+    if toks[0] == 8:
+        return "one ClientPeerIDAuth against several servers: call %s ran a handshake and returned server id %s that no signature received in this call proves for a hostname the request names (diag %s)" % (
+            d[2] if len(d) > 2 else "?", d[3] if len(d) > 3 else "?", d)
     if toks[0] == 5:
         return "AuthenticatedDo returned server id %s that no response proves (diag %s)" % (d[2] if len(d) > 2 else "?", d)
     return "diag %s" % d
@@ -194,6 +220,7 @@ if __name__ == "__main__":
         "observed: core/crypto's ECDSA Verify ignores bytes after the DER signature, so altered signature bytes can still verify; the harness asks the real verifier and describes such bytes as a re-encoding of the known signature (counter altered_signature_bytes_still_verify_keytype_3), not as a forgery",
         "observed outside the property (robustness): a client-initiated request whose public-key decodes to more than ~650 bytes (a marshalled RSA-8192 key, or garbage from anyone) makes PeerIDAuthHandshakeServer.Run panic in addOpaqueParam (h.buf[len(opaqueVal):] with a value longer than the 1024-byte buffer); no identity is reported; the harness keeps keys below that size",
     ]
+    ctx.notes.append("observed: for a hand-built request without Host (req.Host == \"\") ClientPeerIDAuth binds the handshake and the token-map entry to the empty hostname, not to req.URL.Host which the transport sends; an honest server signs for the Host it received, so such a request never authenticates against it (counters hosts_call_host_empty_*); all Host-less requests share the entry of the empty name, which is consistent (the handshake that filled it was bound to the empty name) and accepted by the monitor")
     standard_flow(ctx, dict(
         consts=consts,
         coq_targets=["c19/Properties.vo", "c19/Extract.vo"],
@@ -216,6 +243,10 @@ if __name__ == "__main__":
              "client (kind 4) and 60 to the real ClientPeerIDAuth.AuthenticatedDo over HTTP (kind 5); 2 real-client/real-server runs over HTTP "
              "with stored and expired tokens; byte-level cases for genDataToSign (kind 1) and parsePeerIDAuthSchemeParams (kind 2). Every "
              "answer is compared with the Coq model (conform_case) and judged by the property monitor (monitor_case: a reported id needs a proof in this request; an emitted token must name a peer this request proves). A case is non-trivial "
-             "(kind 7: 36 histories per round of AuthenticatedDo calls on one ClientPeerIDAuth whose hostname moves between servers: token accepted / rejected / failed re-authentication / other statuses / random). A case is non-trivial when an identity was reported (server accept / client reports a server id); distinct = distinct case lines among those.",
+             "(kind 7: 36 histories per round of AuthenticatedDo calls on one ClientPeerIDAuth whose hostname moves between servers: token accepted / rejected / failed re-authentication / other statuses / random; "
+             "kind 8: 42 histories per round of ONE ClientPeerIDAuth used against three scripted servers with different keys at different addresses: requests with Host set to a name / to the URL's own host / "
+             "to another server's address and hand-built requests without Host (URL.Host only); honest servers signing for the Host they were sent, servers signing for the empty name, a server that answers 200 "
+             "without authenticating; stored-token reuse at the same and another address, rejected tokens and re-authentication, statuses 204/403/404/500 on the token path, random histories; the monitor demands "
+             "that every returned id is proven for a hostname the request names, in the call or by the handshake bound to that hostname that produced the token). A case is non-trivial when an identity was reported (server accept / client reports a server id); distinct = distinct case lines among those.",
         describe=describe, key=key, what=what, crosscheck=60,
     ))
